@@ -47,6 +47,16 @@ one `_compute_rechunk` step of `TasksRechunk`        `Expr.rechunk e layout`  (a
      block with shifted id
   `Elemwise`: same block id of every operand           pointwise on the same block id
 
+Notes for the rewrite-rule layer (C02 / C08) built on this file:
+* `den env e = ⟨shape e, denGet env e⟩` (definitional); soundness of a rule `e ↦ e'` is
+  `Arr.Equiv (den env e') (den env e)`; by `Lemmas/ExprCorrect.lean` (`compute_eq_den`) this
+  transfers to the computed blocks of ANY well-formed `e'`, so a rule only has to preserve `den`
+  (and `WF`); `chunks` may change (C03 is about each expression's own `.chunks`).
+* `Expr` derives `DecidableEq`; functions are referenced by number (`env.un`, `env.bin`, `env.blk`),
+  theorems quantify over every `env` (`EnvOK env` constrains `env.blk` only).
+* `mapBlocks`' meaning is per block: a slice may be pushed through it only for block-local
+  functions that commute with the slice (the real `Blockwise._accept_slice` has no such guard).
+
 All ops whose block is "read, per axis, some positions of some child block" share ONE
 n-d construction, `gatherBlock`, driven by a per-axis description `AxSpec`
 (`AxisMap`: out block `j`, local `i` ↦ child block, child local position).  The n-d
